@@ -44,6 +44,12 @@ func SendServiceUsageRequest(
 		return nil, fmt.Errorf("Marshal SUR Failed: %s\n", err)
 	}
 
+	// discard the late answer of an earlier request that timed out
+	select {
+	case <-ue.RatingChan:
+	default:
+	}
+
 	_, err = msg.WriteTo(conn)
 	if err != nil {
 		return nil, fmt.Errorf("Failed to send message from %s: %s\n",
@@ -66,6 +72,12 @@ func HandleSUA(rgChan chan *diam.Message) diam.HandlerFunc {
 	return func(c diam.Conn, m *diam.Message) {
 		logger.RatingLog.Tracef("Received SUA from %s", c.RemoteAddr())
 
-		rgChan <- m
+		select {
+		case rgChan <- m:
+		default:
+			// the request this answer belongs to has given up and an undelivered answer
+			// is already pending: drop it rather than block the connection's handler for ever
+			logger.RatingLog.Warnf("Drop SUA from %s: nobody is waiting for it", c.RemoteAddr())
+		}
 	}
 }
